@@ -54,10 +54,26 @@ func sameInts(a, b []int) bool {
 	return true
 }
 
+const sigShared = "toUnicode result shares memory with the table"
+
 func callToUnicode(name string, ding bool) (out []int, pan any) {
 	defer func() { pan = recover() }()
-	for _, c := range names.ToUnicode(name, ding) {
+	r := names.ToUnicode(name, ding)
+	for _, c := range r {
 		out = append(out, int(c))
+	}
+	// the caller owns the result: overwrite it (and its spare capacity), then ask again
+	r = r[:cap(r)]
+	for i := range r {
+		r[i] = 0x2603
+	}
+	again := names.ToUnicode(name, ding)
+	same := len(again) == len(out)
+	for i := 0; same && i < len(out); i++ {
+		same = int(again[i]) == out[i]
+	}
+	if !same {
+		return out, fmt.Sprintf("the answer for %q changed after the caller overwrote the slice returned before: %q", name, string(again))
 	}
 	return out, nil
 }
@@ -134,6 +150,10 @@ func checkAGL(v *aglVector) *disagreement {
 	case "totext":
 		stim := fmt.Sprintf("ToUnicode(%q, %v)", name, v.Ding)
 		got, pan := callToUnicode(name, v.Ding)
+		if s, ok := pan.(string); ok && strings.HasPrefix(s, "the answer for") {
+			return &disagreement{Sig: sigShared, What: "the slice returned by names.ToUnicode shares memory with the library's tables: overwriting it changes later answers",
+				Stimulus: stim + ", the result overwritten by the caller, " + stim + " again", Expected: uplus(v.Text) + " both times", Observed: "changed"}
+		}
 		if pan != nil {
 			return &disagreement{Sig: "toUnicode panic", What: fmt.Sprintf("names.ToUnicode panicked: %v", pan),
 				Stimulus: stim, Expected: uplus(v.Text), Observed: fmt.Sprint(pan)}
@@ -231,6 +251,10 @@ func replayAGL(args []string) error {
 			}
 			// reproduce alone (the functions are pure: a second, separate call)
 			d2 := checkAGL(&v)
+			if d.Sig == sigShared {
+				// the damage is done to shared state: it cannot be observed a second time in this process
+				d2 = d
+			}
 			if d2 == nil || d2.Sig != d.Sig || d2.Observed != d.Observed {
 				sum.Unreproduced++
 				return nil
